@@ -22,6 +22,7 @@ func TestMain(m *testing.M) {
 	vh.Rule("rapid, per package kind (30 kinds: all tokens of LookupPackage in narrow and wide variants): a package description is drawn (all optional parts, string lengths 0..max of each prefix with boundary bias, formats and rows over all data types incl. NULLs), encoded by the independent reference codec and decoded by the library from a flat BytesChannel (must consume exactly the bytes, fields equal); where the type has a writer the library re-encodes it and the independent decoder must recover every field (so every length/count field equals what follows it) and the library must read back its own output exactly; packages are also built through the exported client API and written; capability: every single bit exhaustively in both directions plus random subsets; login record: every field length 0..31, decoded by an offset table. Non-trivial: the package has a variable-length or optional part present; distinct by the package description")
 	vh.Assume("the reference codec is my reading of the TDS 5.0 token layouts; data status byte is generated as 0 (NULL short forms driven by the status byte are not exercised); BLOB formats are not generated (recorded finding class C06/blob-format-accounting is excluded by construction)")
 	vh.Rule("also: every client-built package is printed and written a second time (same bytes, same fields)")
+	vh.Rule("also: rows preceded by their format, an ORDERBY / ORDERBY2 package and / or an earlier row")
 	vh.Main(m, "C06")
 }
 
